@@ -58,8 +58,10 @@ def gen_image(bdir, r, cd, J):
     for _ in range(r.choice([1, 2])):
         parent = r.choice(dirs)
         L = r.choice([2, 3, 4])
-        a, b2 = sorted([nm(L), nm(L)])
+        a, mid, b2 = sorted([nm(L), nm(L), nm(L)])
         pre = (parent + b"/" if parent else b"")
+        # a same-length entry stored BETWEEN the symlink and the directory (for the "case variant in between" rewrite)
+        ents.append(treegen.Entry(pre + mid, treegen.FILE, content=b"in between", mode=0o644, mtime=3))
         t = r.choice([b"../outside", os.fsencode(os.path.join(J, "outside")), b"../outside/sub"])
         # symlinks with xattrs are stored as EXTENDED symlink inodes
         ents.append(treegen.Entry(pre + a, treegen.SLINK, mode=0o777, target=b"T" * len(t), xattrs={b"user.l": b"x"} if r.random() < 0.4 else None))
@@ -113,6 +115,17 @@ def mutate(r, data, img, hostile_targets):
             linkname = bytes(b[off:off + ln])
             b[o2:o2 + l2] = linkname
             desc.append("%s := %r (duplicate of symlink %s)" % (n2, linkname, fname))
+            # optionally keep the two duplicates apart with an entry that differs from them only in case (a sort that folds case and
+            # is stable leaves the three in their stored order, and a duplicate check on neighbours then sees nothing)
+            idx = lambda nme: int(re.match(r"dir\[\d+\]\.ent(\d+)\.name", nme).group(1))
+            lo, hi = sorted([idx(fname), idx(n2)])
+            between = [(n3, o3, l3) for n3, o3, l3 in names if n3.startswith("dir[%s].ent" % dnum) and l3 == ln and lo < idx(n3) < hi]
+            if between and r.random() < 0.5:
+                n3, o3, l3 = r.choice(between)
+                variant = linkname.swapcase()
+                if variant != linkname:
+                    b[o3:o3 + l3] = variant
+                    desc.append("%s := %r (case variant stored between the two)" % (n3, variant))
             # and point every symlink target that fits out of the root
             for tn, to, tl in targets:
                 fits = [t for t in hostile_targets if len(t) == tl and t not in (b".", b"..", b"/")]
